@@ -20,7 +20,7 @@ import (
 )
 
 func TestMain(m *testing.M) {
-	ev.C().Rule("rapid state machine over a real CloudHandler with a harness-owned instance cache (Peek contents, IpSink, InfoSource): actions metrics(batch from sources subset of 3 + empty) / event(source) / complete(source, instance | not-found) / cacheInsert / cacheEvict / emit; completions only for sources actually requested, in any order. Oracle: parked-state model (exactly-once delivery, enrichment, one outstanding lookup per source, hosts/items gauges). Non-trivial = a source with an event and metrics parked at completion time, or >= 2 batches parked for one source")
+	ev.C().Rule("rapid state machine over a real CloudHandler with a harness-owned instance cache (Peek contents, IpSink, InfoSource): actions metrics(batch from sources subset of 3 + empty) / event(source) / complete(source, instance | not-found) / completeWhileDownstreamBusy (the release of >= 2 parked events is stuck on the first one while two more events of that source are parked) / cacheInsert / cacheEvict / emit; completions only for sources actually requested, in any order. Oracle: parked-state model (exactly-once delivery, enrichment, one outstanding lookup per source, hosts/items gauges). Non-trivial = a source with an event and metrics parked at completion time, or >= 2 batches parked for one source")
 	vt.Main(m)
 }
 
@@ -265,6 +265,68 @@ func TestCloudStageHistories(t *testing.T) {
 				expectLookups(newly)
 				waitDeliveries()
 			},
+			"completeWhileDownstreamBusy": func(t *rapid.T) {
+				// a lookup completes for a source with several parked events while the downstream stage is stuck on the
+				// first of them; more events of that source arrive (and miss the cache again) before the release is over
+				var open []gostatsd.Source
+				for s := range requested {
+					if p := park[s]; p != nil && len(p.events) >= 2 {
+						open = append(open, s)
+					}
+				}
+				if len(open) == 0 {
+					t.Skip("no source with two parked events")
+				}
+				sort.Slice(open, func(i, j int) bool { return open[i] < open[j] })
+				s := rapid.SampledFrom(open).Draw(t, "source")
+				if _, hit := ci.Peek(s); hit {
+					t.Skip("source is cached: later events would not be parked")
+				}
+				var in *gostatsd.Instance
+				if rapid.Bool().Draw(t, "found") {
+					in = instFor(t, s)
+				}
+				p := park[s]
+				history = append(history, fmt.Sprintf("completeWhileDownstreamBusy(%q,found=%v)", s, in != nil))
+				if len(p.points) > 0 {
+					for _, m := range p.points {
+						delivered.AddMetric(enrich(m, in))
+					}
+					expectMaps++
+				}
+				for _, e := range p.events {
+					c := fakes.CopyEvent(e)
+					if in != nil {
+						c.Tags = append(c.Tags, in.Tags...)
+						c.Source = in.ID
+					}
+					deliveredEvents = append(deliveredEvents, describeEvent(c))
+					expectEvents++
+				}
+				delete(park, s)
+				delete(requested, s)
+				gate := make(chan struct{})
+				sink.SetGate(gate)
+				select {
+				case ci.Info <- gostatsd.InstanceInfo{IP: s, Instance: in}:
+				case <-time.After(30 * time.Second):
+					close(gate)
+					fail("C11:completion-not-accepted", "the stage did not take the lookup answer for %q within 30s", s)
+				}
+				np := &parked{}
+				park[s] = np
+				for i := 0; i < 2; i++ {
+					eventSeq++
+					e := &gostatsd.Event{Title: fmt.Sprintf("e%d", eventSeq), Text: "late", Source: s, Tags: gostatsd.Tags{"t:2"}}
+					np.events = append(np.events, e)
+					ch.DispatchEvent(ctx, fakes.CopyEvent(e))
+				}
+				expectLookups([]gostatsd.Source{s})
+				sink.SetGate(nil)
+				close(gate)
+				nontrivial = true
+				waitDeliveries()
+			},
 			"cacheInsert": func(t *rapid.T) {
 				s := rapid.SampledFrom(sources[:3]).Draw(t, "source")
 				var in *gostatsd.Instance
@@ -349,6 +411,9 @@ func TestCloudStageHistories(t *testing.T) {
 		for _, mm := range maps {
 			if d := model.DupKeys(mm); len(d) > 0 {
 				fail("C11:duplicate-series", "a delivered map holds a series under two keys: %v", d)
+			}
+			if d := model.StaleKeys(mm); len(d) > 0 {
+				fail("C11:stale-key", "a delivered map holds a series under a key that is not its own: %v", d)
 			}
 			got.AddMap(mm)
 		}
